@@ -498,6 +498,7 @@ pub fn judge(prog: &Prog, out: &Outcome, events: &[Event], stale_uses: u64, atom
                             // the linearizability check below unless nothing else writes these keys
                             let others_write = events.iter().any(|o| {
                                 !std::ptr::eq(o, b)
+                                    && o.ret > b.invoke
                                     && match &o.op {
                                         TOp::Put(k, ..) | TOp::Del(k) => items.iter().any(|(kk, _)| kk == k),
                                         TOp::Batch(it2) => it2.iter().any(|(k, _)| items.iter().any(|(kk, _)| kk == k)),
